@@ -710,6 +710,20 @@ class CGraph:
         g.render(filename, format=extension)
 
 
+def _freeze(a):
+    """ the value of a constant argument at the moment a node is recorded: ndarrays are copied,
+    lists and tuples (index lists, shapes, repetitions) are rebuilt.  The caller may change the
+    original afterwards (a scratch index or exponent array filled differently before every use)
+    without changing what re-evaluations and reverse sweeps of the recorded node see. """
+    if isinstance(a, numpy.ndarray) and a.dtype != object:
+        return a.copy()
+    if isinstance(a, list):
+        return [_freeze(e) for e in a]
+    if isinstance(a, tuple) and type(a) is tuple:
+        return tuple(_freeze(e) for e in a)
+    return a
+
+
 class Function(Ring):
 
     __array_priority__ = 2
@@ -810,6 +824,10 @@ class Function(Ring):
 
         if not isinstance(Fargs,list):
             raise ValueError('Fargs has to be of type list')
+
+        if Fout is None:
+            # a node is being recorded: constant arguments are taken by value
+            Fargs = [fa if isinstance(fa, cls) else _freeze(fa) for fa in Fargs]
 
         # STEP 1: extract arguments for func
         args = []
@@ -1051,6 +1069,7 @@ class Function(Ring):
 
     def __setitem__(self, sl, rhs):
         rhs = self.totype(rhs)
+        sl = _freeze(sl)
         store = operator.getitem(self.x,sl).copy()
         # print 'storing ', store
         # print 'rhs = ',rhs
